@@ -334,9 +334,59 @@ def reject_probes(rec):
 
     must_raise("setattr after elaboration", lambda: after_elab("setattr"), "post-elaboration-addition-accepted")
     must_raise("add() after elaboration", lambda: after_elab("add"), "post-elaboration-addition-accepted")
+    post_elab_matrix(rec, must_raise)
     # anonymous / doubly named additions
     must_raise("Module.add(Signal()) without a name", lambda: h.Module(name="P").add(h.Signal()), "anonymous-add-accepted")
     must_raise("Module.add(Signal(name='a'), name='b')", lambda: h.Module(name="P").add(h.Signal(name="a"), name="b"), "conflicting-names-accepted")
+
+
+def post_elab_matrix(rec, must_raise):
+    """Every kind of value x {fresh name, name of a signal, of a port, of an instance} x {setattr, add} on an elaborated module:
+    refused, and the refusal leaves the module as it was (M-ns rides on the raising call; the re-export is compared here)."""
+    import hdl21 as h
+
+    E = lib()["E"]
+
+    def values():
+        yield "Signal", lambda: h.Signal()
+        yield "Signal(width=2)", lambda: h.Signal(width=2)
+        yield "Port", lambda: h.Input()
+        yield "Instance", lambda: h.Instance(of=E())
+        yield "InstanceArray", lambda: h.InstanceArray(E(), 2)
+        yield "InstanceBundle", lambda: h.Pair(E())
+        yield "BundleInstance", lambda: h.BundleInstance(of=h.Diff)
+
+    for vname, mk in values():
+        for target in ("fresh", "sig", "prt", "ins"):
+            for form in ("setattr", "add", "add-named"):
+                m = h.Module(name=f"AfterElab{next(_ctr)}")
+                m.sig, m.prt = h.Signal(), h.Input()
+                m.ins = E()(z=m.sig)
+                before = h.to_proto(m).SerializeToString(deterministic=True)
+                name = "zz" if target == "fresh" else target
+
+                def attempt(m=m, name=name, form=form, mk=mk):
+                    v = mk()
+                    if form == "setattr":
+                        setattr(m, name, v)
+                    elif form == "add":
+                        m.add(v, name=name)
+                    else:
+                        v.name = name
+                        m.add(v)
+
+                what = f"{form} of a {vname} under {'a fresh name' if target == 'fresh' else 'the name of an existing ' + target} after elaboration"
+                must_raise(what, attempt, "post-elaboration-addition-accepted")
+                rec.count("reject.post-elab-matrix")
+                try:
+                    after = h.to_proto(m).SerializeToString(deterministic=True)
+                except Exception as e:
+                    rec.violation("post-elaboration-attempt-damages", f"after the refused {what} the module no longer exports: {type(e).__name__}: {str(e)[:100]}",
+                                  case={"kind": "probe", "what": what})
+                    continue
+                if after != before:
+                    rec.violation("post-elaboration-attempt-damages", f"after the refused {what} the module exports a different package",
+                                  case={"kind": "probe", "what": what})
 
 
 def class_vs_procedural(rec, rng, n):
